@@ -1,5 +1,5 @@
 import NetVerif.Proofs.Lemmas.WriteSchedRefine
-import NetVerif.Model.WriteSched7540
+import NetVerif.Proofs.Lemmas.WriteSched7540
 /-!
 # C12 — HTTP/2 write schedulers deliver every queued frame exactly once, in order
 
@@ -14,7 +14,7 @@ control frames first in FIFO order; otherwise the head of one stream's FIFO, who
 -/
 namespace NetVerif.Proofs.C12
 open NetVerif.Model.WriteSched NetVerif.Proofs.WriteSchedLemmas NetVerif.Proofs.WriteSchedSpec
-  NetVerif.Proofs.WriteSchedRefine
+  NetVerif.Proofs.WriteSchedRefine NetVerif.Proofs.WriteSched7540
 
 /-- Abstraction of a scheduler state. -/
 def absS : Sched → Abs
@@ -173,17 +173,156 @@ example : (Kind.p9218.init.run exEnv exOps).2.2 =
     [.ok, .ok, .ok, .ok, .ok, .frame (.ctl 12), .frame (.data 1 10 0 4 false false),
      .frame (.data 1 10 4 2 false false), .frame (.hdr 3 11), .none, .ok, .none] := by decide
 
-/-! ## The full statement over all four schedulers, and why it is false for the code as it is
+/-! ## The RFC 7540 priority scheduler (after the two repairs) and the statement over all four schedulers
 
-`priorityWriteSchedulerRFC7540` (model: `Model/WriteSched7540.lean`, with explicit slice aliasing) violates
-C12 in two ways, both reproduced on the real code by the harness:
+History: on the unrepaired code the statement below was refuted by two witnesses (`witnessStale`:
+`CloseStream` left the closed node's queue populated, so `Pop` returned the zero request;
+`witnessIdleEvict`: an opened former idle node stayed on the idle list and was evicted, so queued frames
+vanished and `Push` panicked).  Both are now regression inputs (`corpus/C12/stale.ops`) and examples below.
 
-1. `CloseStream` hands a *copy* of the node's queue to the pool and leaves the node's own slices
-   populated (with zeroed cells); with `MaxClosedNodesInTree > 0` the closed node stays in the tree and a
-   later `Pop` returns `(FrameWriteRequest{}, true)` (`witnessStale`).
-2. `OpenStream` on a node created idle by `AdjustStream` leaves it on the idle list; when the list
-   overflows the node of the *open* stream is removed: its queued frames vanish without `CloseStream` and
-   the next `Push` of a DATA frame panics (`witnessIdleEvict`). -/
+For RFC 7540 everything is proved except the clause "`Pop` returns nothing only if nothing is sendable"
+(it needs reachability of every node from the root of the priority tree): `Holds False`. -/
+
+/-- Stream identifiers are never reused (RFC 9113 §5.1.1): `OpenStream` is only called with ids that were
+never opened before.  (`priorityWriteSchedulerRFC7540.OpenStream` panics on a retained closed node.) -/
+def freshOK (ever : Nat → Bool) : Op → Prop
+  | .openS id _ _ => ever id = false
+  | _ => True
+
+def everOp (ever : Nat → Bool) : Op → Nat → Bool
+  | .openS id _ _ => upd ever id true
+  | _ => ever
+
+def Fresh (ever : Nat → Bool) : List Op → Prop
+  | [] => True
+  | op :: ops => freshOK ever op ∧ Fresh (everOp ever op) ops
+
+/-- Every call of the RFC 7540 scheduler is a step of the specification (without the "nothing sendable"
+clause) and keeps the invariants. -/
+theorem p7_step {s : P7540} {opn ever : Nat → Bool} {op : Op} (e : Env) (hc : CoreInv s opn ever) (hli : ListInv s)
+    (hwf : AbsWF (absP7 s) opn) (hok : OpOK opn op) (hfr : freshOK ever op) :
+    StepSpec False e (absP7 s) op (s.step e op).2.2 (s.step e op).1 (absP7 (s.step e op).2.1) ∧
+      CoreInv (s.step e op).2.1 (opnOp opn op) (everOp ever op) ∧ ListInv (s.step e op).2.1 := by
+  cases op with
+  | win id d =>
+    have : s.step e (.win id d) = (envOp e (.win id d), s, .ok) := by
+      simp only [P7540.step, envOp]; split <;> rfl
+    rw [this]; exact ⟨StepSpec.other (by simp), hc, hli⟩
+  | maxframe n => exact ⟨StepSpec.other (by simp), hc, hli⟩
+  | openS id p c =>
+    obtain ⟨s', h1, h2, h3, h4⟩ := p7_open (pusher := p) hc hli hok.1 hok.2.1 hfr
+    have : s.step e (.openS id p c) = (e, s', .ok) := by simp [P7540.step, h1]
+    rw [this]
+    refine ⟨?_, h3, h4⟩
+    have h := StepSpec.other (strict := False) (e := e) (a := absP7 s) (op := .openS id p c) (by simp)
+    simp only [Abs.applyOp, envOp] at h
+    simp only; rw [h2]; exact h
+  | closeS id =>
+    obtain ⟨s', h1, h2, h3, h4⟩ := p7_close hc hli hok
+    have : s.step e (.closeS id) = (e, s', .ok) := by simp [P7540.step, h1]
+    rw [this]
+    refine ⟨?_, h3, h4⟩
+    have h := StepSpec.other (strict := False) (e := e) (a := absP7 s) (op := .closeS id) (by simp)
+    simp only [envOp] at h
+    simp only; rw [h2]; exact h
+  | adjust id d x w c =>
+    obtain ⟨s', h1, h2, h3, h4⟩ := p7_adjust (dep := d) (w := w) (excl := x) hc hli hok.1
+    have : s.step e (.adjust id d x w c) = (e, s', .ok) := by simp [P7540.step, h1]
+    rw [this]
+    refine ⟨?_, h3, h4⟩
+    have h := StepSpec.other (strict := False) (e := e) (a := absP7 s) (op := .adjust id d x w c) (by simp)
+    simp only [Abs.applyOp, envOp] at h
+    simp only; rw [h2]; exact h
+  | push f =>
+    obtain ⟨s', h1, h2, h3, h4⟩ := p7_push hc hli hok
+    have : s.step e (.push f) = (e, s', .ok) := by simp [P7540.step, h1]
+    rw [this]
+    refine ⟨?_, h3, h4⟩
+    have h := StepSpec.other (strict := False) (e := e) (a := absP7 s) (op := .push f) (by simp)
+    simp only [envOp] at h
+    simp only; rw [h2]; exact h
+  | pop hint =>
+    obtain ⟨e', s', r, h1, h2, h3, h4⟩ := p7_pop e hc hli hwf
+    have : s.step e (.pop hint) = (e', s', r) := by simp [P7540.step, h1]
+    rw [this]
+    exact ⟨StepSpec.pop h2, h3, h4⟩
+
+theorem p7_run_refines (ops : List Op) : ∀ (s : P7540) (opn ever : Nat → Bool) (e : Env) (L : Ledger),
+    CoreInv s opn ever → ListInv s → AbsWF (absP7 s) opn → LedgerOK (absP7 s) L → Contract opn ops → Fresh ever ops →
+    ∃ L', SpecRun False e (absP7 s) L ops (s.run e ops).2.2 (s.run e ops).1 (absP7 (s.run e ops).2.1) L' ∧
+      LedgerOK (absP7 (s.run e ops).2.1) L' ∧
+      (∀ r ∈ (s.run e ops).2.2, r ≠ .frame .empty ∧ r ≠ .panic) := by
+  induction ops with
+  | nil => intro s opn ever e L _ _ _ hl _ _; exact ⟨L, SpecRun.nil, hl, by simp [P7540.run]⟩
+  | cons op ops ih =>
+    intro s opn ever e L hc hli hwf hl hct hfr
+    obtain ⟨hok, hct'⟩ := hct
+    obtain ⟨hf, hfr'⟩ := hfr
+    obtain ⟨hstep, hc', hli'⟩ := p7_step e hc hli hwf hok hf
+    obtain ⟨hwf', hl', hne, hnp⟩ := step_preserves hwf hl hok hstep
+    obtain ⟨L', hrun, hlo, hres⟩ := ih (s.step e op).2.1 _ _ (s.step e op).1 _ hc' hli' hwf' hl' hct' hfr'
+    refine ⟨L', ?_, ?_, ?_⟩
+    · simp only [P7540.run]
+      exact SpecRun.cons hstep hrun
+    · simpa [P7540.run] using hlo
+    · intro r hr
+      simp only [P7540.run, List.mem_cons] at hr
+      rcases hr with rfl | hr
+      · exact ⟨hne, hnp⟩
+      · exact hres r hr
+
+theorem p7_init_inv (mc mi : Nat) (th : Bool) :
+    CoreInv (P7540.init mc mi th) (fun _ => false) (fun _ => false) ∧ ListInv (P7540.init mc mi th) ∧
+      absP7 (P7540.init mc mi th) = Abs.empty := by
+  have hlk : ∀ id, (P7540.init mc mi th).lookup id = if id = 0 then some 0 else none := by
+    intro id
+    simp only [P7540.lookup, P7540.init, List.lookup]
+    by_cases h : id = 0
+    · subst h; rfl
+    · have : (id == 0) = false := by simpa using h
+      simp [this, h]
+  have hnode : ∀ i, (P7540.init mc mi th).node i = {} := by
+    intro i
+    cases i with
+    | zero => rfl
+    | succ k => simp [P7540.node, P7540.init]
+  refine ⟨⟨by rw [hlk]; rfl, by simp [P7540.init], by rw [hnode], by rw [hnode], ?_, ?_, ?_, ?_, ?_⟩, ?_, ?_⟩
+  · intro id n h
+    rw [hlk] at h
+    split at h
+    · cases h; rename_i h0; subst h0; exact ⟨by simp [P7540.init], by rw [hnode]⟩
+    · cases h
+  · intro id
+    constructor
+    · intro h; cases h
+    · rintro ⟨h0, n, h1, _⟩
+      rw [hlk] at h1; simp [h0] at h1
+  · intro n _ hq; rw [hnode] at hq; exact absurd rfl hq
+  · intro id n h0 h1 _
+    rw [hlk] at h1; simp [h0] at h1
+  · simp only [P7540.init]; split <;> decide
+  · exact ⟨by simp [P7540.init], by simp [P7540.init], by simp [P7540.init], by simp [P7540.init]⟩
+  · refine Abs.ext' ?_ ?_
+    · simp [absP7, hnode, Abs.empty, empty_toList]
+    · intro id
+      simp only [absP7, Abs.empty, hlk]
+      split
+      · rfl
+      · rename_i h; simp [h]
+
+/-- **C12 for the RFC 7540 scheduler** (all configurations, all histories that respect the contract and
+never reuse a stream id): run of the FIFO specification, ledger balanced, no zero request, no panic.
+`_partial`: the specification is used without its "nothing is returned only if nothing is sendable" clause. -/
+theorem holds_p7540_partial (mc mi : Nat) (th : Bool) (e : Env) (ops : List Op)
+    (hc : Contract (fun _ => false) ops) (hf : Fresh (fun _ => false) ops) :
+    Holds False e ops ((P7540.init mc mi th).run e ops).2.2 ((P7540.init mc mi th).run e ops).1
+      (absP7 ((P7540.init mc mi th).run e ops).2.1) := by
+  obtain ⟨h1, h2, h3⟩ := p7_init_inv mc mi th
+  have hwf : AbsWF (absP7 (P7540.init mc mi th)) (fun _ => false) := by rw [h3]; exact absWF_empty
+  have hl : LedgerOK (absP7 (P7540.init mc mi th)) Ledger.empty := by rw [h3]; exact ledgerOK_empty
+  obtain ⟨L', r1, r2, r3⟩ := p7_run_refines ops _ _ _ e Ledger.empty h1 h2 hwf hl hc hf
+  rw [h3] at r1
+  exact ⟨L', r1, r2, r3⟩
 
 /-- All four schedulers. -/
 inductive Kind4 where
@@ -196,67 +335,47 @@ def runK (k : Kind4) (e : Env) (ops : List Op) : Env × List Res :=
   | .base k => ((k.init.run e ops).1, (k.init.run e ops).2.2)
   | .p7540 mc mi th => (((P7540.init mc mi th).run e ops).1, ((P7540.init mc mi th).run e ops).2.2)
 
-/-- **C12, full statement**: for every scheduler and every contract-respecting history the observable
-run (calls ↦ results, with the flow-control environment) is a run of the FIFO specification that conserves
-every pushed token, never yields the zero request and never panics. -/
+/-- **C12, full statement**: for every scheduler and every contract-respecting history (stream ids never
+reused) the observable run is a run of the FIFO specification — including "`Pop` returns nothing only if
+nothing is sendable" — that conserves every pushed token, never yields the zero request, never panics. -/
 def Statement : Prop :=
-  ∀ (k : Kind4) (e : Env) (ops : List Op), Contract (fun _ => false) ops →
-    ∃ a', Holds e ops (runK k e ops).2 (runK k e ops).1 a'
+  ∀ (k : Kind4) (e : Env) (ops : List Op), Contract (fun _ => false) ops → Fresh (fun _ => false) ops →
+    ∃ a', Holds True e ops (runK k e ops).2 (runK k e ops).1 a'
 
-/-- The region the proof covers: everything except the RFC 7540 scheduler.  (The Go-side oracle is
-narrower: it only excuses RFC 7540 histories after a `CloseStream` with queued frames under
-`MaxClosedNodesInTree > 0`, or after the eviction of an opened former idle node; all other RFC 7540
-histories are checked by the oracle and the differential tie, but not covered by a theorem.) -/
-def Excluded : Kind4 → Bool
-  | .base _ => false
-  | .p7540 .. => true
+/-- What is proved of `Statement`: all of it for round-robin, RFC 9218 and random (even without the
+freshness assumption); for RFC 7540 all of it except the "nothing sendable" clause. -/
+def strictFor : Kind4 → Prop
+  | .base _ => True
+  | .p7540 .. => False
 
-theorem holds_partial (k : Kind4) (e : Env) (ops : List Op) (hk : Excluded k = false)
-    (hc : Contract (fun _ => false) ops) : ∃ a', Holds e ops (runK k e ops).2 (runK k e ops).1 a' := by
+theorem holds_partial (k : Kind4) (e : Env) (ops : List Op)
+    (hc : Contract (fun _ => false) ops) (hf : Fresh (fun _ => false) ops) :
+    ∃ a', Holds (strictFor k) e ops (runK k e ops).2 (runK k e ops).1 a' := by
   cases k with
   | base k => exact ⟨_, holds_rr_p9218_rand k e ops hc⟩
-  | p7540 mc mi th => simp [Excluded] at hk
+  | p7540 mc mi th => exact ⟨_, holds_p7540_partial mc mi th e ops hc hf⟩
 
 def witnessEnv : Env := { maxFrame := 16384, connWin := 65535, win := fun _ => 65535 }
 
-/-- push 2 DATA frames, close the stream, pop. -/
+/-- Former witness 1: push 2 DATA frames, close the stream, pop.  (Used to yield two zero requests.) -/
 def witnessStale : List Op :=
   [.openS 1 0 6, .push (.data 1 1 0 3 false true), .push (.data 1 2 0 3 true true), .closeS 1, .pop none, .pop none, .pop none]
 
-theorem witnessStale_contract : Contract (fun _ => false) witnessStale := by
-  simp [witnessStale, Contract, OpOK, opnOp, pushOK, upd]
+example : Contract (fun _ => false) witnessStale ∧ Fresh (fun _ => false) witnessStale := by
+  simp [witnessStale, Contract, OpOK, opnOp, pushOK, upd, Fresh, freshOK, everOp]
 
-/-- The model of the code as it is returns the zero request twice (exactly what the real code does). -/
-theorem witnessStale_result : (runK (.p7540 10 10 false) witnessEnv witnessStale).2 =
-    [.ok, .ok, .ok, .ok, .frame .empty, .frame .empty, .none] := by decide
+example : (runK (.p7540 10 10 false) witnessEnv witnessStale).2 = [.ok, .ok, .ok, .ok, .none, .none, .none] := by decide
 
-/-- PRIORITY for idle stream 1, open it, queue a frame, then PRIORITY frames for two more idle streams
-with `MaxIdleNodesInTree = 2`: stream 1's node is evicted, the next DATA push panics. -/
+/-- Former witness 2: PRIORITY for idle stream 1, open it, queue a frame, PRIORITY for two more idle
+streams with `MaxIdleNodesInTree = 2`, pop, push DATA.  (Used to lose the frame and panic.) -/
 def witnessIdleEvict : List Op :=
   [.adjust 1 0 false 15 6, .openS 1 0 6, .push (.hdr 1 1), .adjust 3 0 false 15 6, .adjust 5 0 false 15 6,
    .pop none, .push (.data 1 2 0 3 true true)]
 
-theorem witnessIdleEvict_contract : Contract (fun _ => false) witnessIdleEvict := by
-  simp [witnessIdleEvict, Contract, OpOK, opnOp, pushOK, upd]
+example : Contract (fun _ => false) witnessIdleEvict ∧ Fresh (fun _ => false) witnessIdleEvict := by
+  simp [witnessIdleEvict, Contract, OpOK, opnOp, pushOK, upd, Fresh, freshOK, everOp]
 
-theorem witnessIdleEvict_result : (runK (.p7540 10 2 false) witnessEnv witnessIdleEvict).2 =
-    [.ok, .ok, .ok, .ok, .ok, .none, .panic] := by decide
-
-/-- **The full statement is false for the code as it is** (first defect). -/
-theorem full_false : ¬ Statement := by
-  intro h
-  obtain ⟨a', L', _, _, hres⟩ := h (.p7540 10 10 false) witnessEnv witnessStale witnessStale_contract
-  rw [witnessStale_result] at hres
-  exact (hres (.frame .empty) (by simp)).1 rfl
-
-/-- The second defect alone also refutes it. -/
-theorem full_false_idle_evict : ¬ Statement := by
-  intro h
-  obtain ⟨a', L', _, _, hres⟩ := h (.p7540 10 2 false) witnessEnv witnessIdleEvict witnessIdleEvict_contract
-  rw [witnessIdleEvict_result] at hres
-  exact (hres .panic (by simp)).2 rfl
-
-/-- With `MaxClosedNodesInTree = 0` (closed nodes are removed at once) the first witness behaves. -/
-example : (runK (.p7540 0 10 false) witnessEnv witnessStale).2 = [.ok, .ok, .ok, .ok, .none, .none, .none] := by decide
+example : (runK (.p7540 10 2 false) witnessEnv witnessIdleEvict).2 =
+    [.ok, .ok, .ok, .ok, .ok, .frame (.hdr 1 1), .ok] := by decide
 
 end NetVerif.Proofs.C12
